@@ -241,6 +241,13 @@ bool BlockHDF5::removeEntity(const nix::Identity &ident) {
         }
     }
 
+    // the dimension descriptors of an array can hold a hard link back to the array itself (alias range
+    // dimension): remove them first, otherwise the unlinked array keeps itself alive and its handles stay valid
+    if (ident.type() == ObjectType::DataArray) {
+        DataArrayHDF5 array(file(), block(), *eg);
+        array.deleteDimensions();
+    }
+
     // we get first "entity" link by name, but delete all others whatever their name with it
     std::string name;
     eg->getAttr("name", name);
